@@ -17,6 +17,7 @@ import re
 import os.path
 import unicodedata
 from collections.abc import Iterator
+from copy import copy
 from decimal import Decimal, DecimalException
 from string import ascii_letters
 from typing import cast, Optional, Union, NoReturn
@@ -764,9 +765,16 @@ def evaluate__deep_equal(self: XPathFunction, context: ta.ContextType = None) ->
     else:
         collation = self.get_argument(context, 2, required=True, cls=str)
 
+    # The operands are consumed in parallel: each one needs its own focus and bindings
+    contexts = [context, context]
+    if context is not None:
+        for k in range(2):
+            contexts[k] = copy(context)
+            contexts[k].variables = context.variables.copy()
+
     return deep_equal(
-        seq1=self[0].select(context),
-        seq2=self[1].select(context),
+        seq1=self[0].select(contexts[0]),
+        seq2=self[1].select(contexts[1]),
         collation=collation,
     )
 
